@@ -27,6 +27,13 @@ def answer_alphabet(version, met):
     for x in ("", " ", "nd", "ND", "x", "X", "?", "Q", "N/A", "0", vals[0] + vals[0], vals[0] + ":", ":" + vals[0]):
         if x not in out:
             out.append(x)
+    # values that are legal for OTHER metrics of the version (a builder that looks answers up in
+    # a table shared between the questions accepts them)
+    for met2, vals2 in G.GRAMMARS[version]["metrics"]:
+        for v in vals2:
+            for x in (v, v.lower()):
+                if x not in out:
+                    out.append(x)
     return out
 
 
